@@ -274,7 +274,17 @@ def parseFault (s : String) : Fault :=
   else if s.startsWith "s" then .short (nat! (s.drop 1).toString)
   else .none
 
-def parseSched (s : String) : List Fault :=
+/-- a schedule may start with `p<N>`: the reader's cursor at hand-over -/
+def splitInitPos (s : String) : Nat × String :=
+  if s.front == 'p' then
+    match ((s.drop 1).toString.splitOn ",") with
+    | [n] => (n.toNat?.getD 0, "-")
+    | n :: rest => (n.toNat?.getD 0, ",".intercalate rest)
+    | [] => (0, "-")
+  else (0, s)
+
+def parseSched (s0 : String) : List Fault :=
+  let s := (splitInitPos s0).2
   if s == "-" then [] else (s.splitOn ",").map parseFault
 
 /-- per seek: `pos:bytes read until the next seek` (coalesced, deterministic) -/
@@ -342,7 +352,7 @@ def listDigest {α} (sh : α → String) (l : List α) : String :=
   s!"n={l.length} h={fnvAdd h.1 "]"}"
 
 def handleStream (sp sched ops : String) (content : Array UInt8) : String :=
-  let dev : Device := ⟨content, 0, parseSched sched, []⟩
+  let dev : Device := ⟨content, (splitInitPos sched).1, parseSched sched, []⟩
   match openStream (parseSpec sp) dev with
   | (.ok s, _) =>
     let head := "open=ok " ++ s.ehdr.show ++ " shdrs=" ++ listDigest SectionHeader.show s.shdrs ++
@@ -380,6 +390,13 @@ def handle (line0 : String) : String :=
   | ["ident", sp, hex] =>
     showOut (fun (r : Bool × Class × Nat × Nat) => s!"{showBool r.1},{showClass r.2.1},{r.2.2.1},{r.2.2.2}")
       (parseIdent (parseSpec sp) (sliceOfHex hex))
+  | ["ehdr", sp, hex] =>
+    let d := sliceOfHex hex
+    let idEnd := min d.len 16
+    (match parseIdent (parseSpec sp) ⟨d.buf, d.start, d.start + idEnd⟩ with
+     | .ok ident => showOut FileHeader.show (parseTail ident ⟨d.buf, d.start + idEnd, d.stop⟩)
+     | .err e => "err " ++ toString e
+     | .panic => "panic")
   | ["eidata", sp, v] => showOut showBool (fromEiData (parseSpec sp) (nat! v))
   | ["notes", le, cls, align, hex] =>
     notesTranscript ⟨le == "1", parseCls cls, nat! align, sliceOfHex hex, 0⟩
